@@ -37,8 +37,10 @@ def stepImg (op impl : String) : String :=
       if g.any (·.startsWith "timeout:") then "timeout\ttimeout\t-" else
       -- the model side
       let pixKnown := bit 14 && xp > 0 && yp > 0
-      let mcls := match newImageGen (detected a.sixel a.kitty pixKnown) with | some c => c.name | none => "unknown"
-      let mc := match newImageGen (detected a.sixel a.kitty pixKnown) with
+      -- `graphicsProtocol` and `NewImage`, both interpreted from the regenerated source facts
+      let cl := (detectedGen ⟨a.sixel, a.kitty, pixKnown⟩).bind newImageGen
+      let mcls := match cl with | some c => c.name | none => "unknown"
+      let mc := match cl with
         | some c => expectedEsc c (fits cw ch w1w w1h || fits cw ch w3w w3h) cw ch
         | none => "unknown"
       -- the implementation side: lex every phase
